@@ -1093,6 +1093,24 @@ func (e *Engine) Import(r io.Reader, basePath string) error {
 // from the archive matching basePath to the shard.
 // If asNew is true, each file will be installed as a new TSM file even if an
 // existing file with the same name in the backup exists.
+// tarEndReader counts the zero bytes at the end of what has been read so far.
+type tarEndReader struct {
+	r     io.Reader
+	zeros int
+}
+
+func (t *tarEndReader) Read(p []byte) (int, error) {
+	n, err := t.r.Read(p)
+	for _, b := range p[:n] {
+		if b == 0 {
+			t.zeros++
+		} else {
+			t.zeros = 0
+		}
+	}
+	return n, err
+}
+
 func (e *Engine) overlay(r io.Reader, basePath string, asNew bool) error {
 	// Copy files from archive while under lock to prevent reopening.
 	newFiles, err := func() ([]string, error) {
@@ -1100,7 +1118,11 @@ func (e *Engine) overlay(r io.Reader, basePath string, asNew bool) error {
 		defer e.mu.Unlock()
 
 		var newFiles []string
-		tr := tar.NewReader(r)
+		// A stream that ends between two archive members is indistinguishable
+		// from a complete one for the tar reader; a complete archive ends with
+		// the end-of-archive marker (two zero blocks).
+		cr := &tarEndReader{r: r}
+		tr := tar.NewReader(cr)
 		for {
 			if fileName, err := e.readFileFromBackup(tr, basePath, asNew); err == io.EOF {
 				break
@@ -1109,6 +1131,9 @@ func (e *Engine) overlay(r io.Reader, basePath string, asNew bool) error {
 			} else if fileName != "" {
 				newFiles = append(newFiles, fileName)
 			}
+		}
+		if cr.zeros < 1024 {
+			return nil, errors.New("backup stream is truncated: end-of-archive marker missing")
 		}
 
 		if err := file.SyncDir(e.path); err != nil {
